@@ -40,6 +40,8 @@ func c13(c *Ctx) {
 	u := newUpgA(c)
 	r.Rule("C13.fallback", "Upgrade applies checkSameOrigin iff Upgrader.CheckOrigin is nil, to the request being upgraded, before hijacking; a false result replies 403 through returnError")
 	r.Rule("C13.same-origin", "checkSameOrigin returns true only when r.Header[\"Origin\"] is empty; otherwise it returns false on a url.Parse error and else exactly equalASCIIFold(parsed.Host, r.Host) (no port stripping, no Hostname(), no prefix/suffix comparison)")
+	r.Rule("C13.stateless", "the origin decision depends on the request alone: no package-level variable is written after initialisation (same rule as C11.globals)")
+	packageStateless(c, "C13.stateless")
 	r.Rule("C13.ascii-only", "equalASCIIFold calls nothing but utf8.DecodeRuneInString; for every rune pair of the evaluation domain (all runes < U+0180 (quick) / < U+0300 (thorough), plus U+212A KELVIN, U+017F, full-width letters, ...) an iteration continues iff the runes are equal after mapping A-Z to a-z only; the function returns true only through the final s == t on the remainders; both strings advance by the decoded sizes")
 	r.Assume("net/url.Parse puts the authority's host[:port] (without userinfo) into URL.Host")
 
